@@ -534,7 +534,7 @@ META["C18"] = dict(
     rule="a case is (fault kind, fault position, sub-file features, multifile, overwrite, set of pre-existing files); distinct by "
     "hash; non-trivial = save was called on an accepted configuration.",
     gates={
-        "mon.save_into_source_directory": g(200, 2000), "st.multifile_with_subfiles_of_the_same_name": g(15, 150), "mon.failed_then_successful_save_sequences": g(100, 1000),
+        "mon.save_into_source_directory": g(200, 2000), "mon.save_path_content": g(60, 600), "st.multifile_with_subfiles_of_the_same_name": g(15, 150), "mon.failed_then_successful_save_sequences": g(100, 1000),
         "mon.saves.none": g(150, 1500), "mon.saves.invalid-value": g(300, 6000), "mon.saves.unserialisable-value": g(80, 1500),
         "mon.saves.oserror-at-write-open": g(150, 3000), "mon.saved_reparsed": g(80, 800), "mon.saves.unencodable-value": g(100, 1500),
         "st.target_spelling.fsspec-local": g(30, 300),
